@@ -29,7 +29,7 @@ META = {
             "C13/C14 (font info, numbers), C15 (groups, kerning) and the plist/XML layer hypotheses; an instance of the "
             "laws is exhibited. Known-finding classes are exactly the complements of the parts' validity (wf).",
 }
-COQ_TARGETS = ["Props/C01.vo", "Run/C01.vo", "Run/FontFiles.vo"]
+COQ_TARGETS = ["Props/C01.vo", "Run/C01.vo", "Run/FontFiles.vo", "Proofs/FontInfoFileP.vo"]
 PROPS_FILES = ["C01"]
 TRUSTED = [
     "model Model/FontRT.v hand-written from src/font.rs, src/layer.rs, src/fontinfo.rs (object libs); tied by the "
@@ -53,7 +53,11 @@ MAIN_GEN = ["f13_meta", "cr_in_plist", "cr_in_note", "attr_ws", "empty_contours"
 def anchors(ctx):
     import anchors_font
     import driver
-    return anchors_font.gallina(anchors_font.extract(driver.REPO), "C01")
+    import anchors_fontinfo
+    text = anchors_font.gallina(anchors_font.extract(driver.REPO), "C01")
+    # the schema of fontinfo.plist, from src/fontinfo.rs and src/guideline.rs
+    text += "Require Import Norad.Model.FontInfoFile.\n" + anchors_fontinfo.gallina(anchors_fontinfo.extract(driver.REPO), "x_font_info_schema")
+    return text
 
 
 def _load(p):
@@ -324,7 +328,8 @@ def _stream(ctx, fc, tag, seed, count, gen, known_ids, stats, corr, fonts_file=N
                 for which in ("n.ufo", "n2.ufo") if k % 4 == 0 else ("n.ufo",):
                     try:
                         pert = corr["files_perturbed"] if len(corr["files_perturbed"]) < 80 else None
-                        for rel, e in ffc.checks_written(os.path.join(cd, which), pert):
+                        for rel, e in ffc.checks_written(os.path.join(cd, which), pert,
+                                                         fontinfo=(which == "n.ufo" and (ctx.thorough() or k % 3 == 0))):
                             corr["files"].append(("%s/%s/%s/%s" % (tag, case, which, rel), e))
                     except Exception as e:
                         ctx.disagreements.append({"what": "cannot build the file-codec case", "case": case, "stream": tag,
